@@ -19,11 +19,13 @@ if os.path.exists(dp):
         s = s.replace("ROOT = os.path.dirname(os.path.dirname(os.path.abspath(__file__)))",
                       "ROOT = (os.environ.get('PYTHONPATH') or os.path.dirname(os.path.dirname(os.path.abspath(__file__)))).split(os.pathsep)[0]")
         open(dp, "w").write(s)
-r = subprocess.run([sys.executable, "/verif/tools/seedtest.py", dst] + checks, capture_output=True, text=True)
+scratch = ["--scratch"] if os.environ.get("SEED_SCRATCH") else []
+r = subprocess.run([sys.executable, "/verif/tools/seedtest.py"] + scratch + [dst] + checks, capture_output=True, text=True)
 res = json.loads(r.stdout)
 meta = {"id": sid, "breaks_property": prop, "needs_to_manifest": needs,
         "source": "independent sub-agent given only the property text and a scratch worktree" if sid.startswith("agent") else "written by the harness author from the mutant list in DESIGN.md",
-        "ran": "tools/seedtest.py: git -C /repo apply patch.diff; baseline pytest; demo.py; quick checks %s; git -C /repo checkout -- .; demo.py again" % checks,
+        "ran": ("tools/seedtest.py --scratch: scratch copy of /repo HEAD (git archive); demo.py; git apply patch.diff; baseline pytest; demo.py; quick checks %s with PYSNARK_TREE=<copy>" % checks) if scratch else
+               ("tools/seedtest.py: git -C /repo apply patch.diff; baseline pytest; demo.py; quick checks %s; git -C /repo checkout -- .; demo.py again" % checks),
         "baseline_tests_pass_with_change": res.get("tests_pass"), "tests_tail": res.get("tests"),
         "demo_exit_with_change": res.get("demo_with_change"), "demo_exit_without_change": res.get("demo_without_change"),
         "checks": res.get("checks")}
